@@ -608,7 +608,44 @@ def _mk_modules():
         return __getattr__
     for m_ in (mp, ctx, proc, th):
         m_.__getattr__ = missing(m_.__name__)
-    return {"multiprocessing": mp, "multiprocessing.context": ctx, "multiprocessing.process": proc, "threading": th}
+    # os: the real module, except that the process id is the one of the VIRTUAL process the caller runs in
+    vos = types.ModuleType("os")
+    vos.__dict__.update({k: v for k, v in vars(os).items() if not k.startswith("__")})
+    vos.getpid = getpid
+    vos.getppid = getppid
+    return {"multiprocessing": mp, "multiprocessing.context": ctx, "multiprocessing.process": proc, "threading": th,
+            "os": vos}
+
+
+def _process_task(t):
+    """the task that stands for the process task t runs in: the nearest ancestor-or-self started as a process, else main"""
+    s = cur()
+    by_name = {x.lname: x for x in s.tasks}
+    name = t.lname
+    while len(name) > 1:
+        x = by_name.get(name)
+        if x is not None and x.is_process:
+            return x
+        name = name[:-1]
+    return by_name.get(("m",), t)
+
+
+def getpid():
+    s = vsched._CUR
+    if s is None or s.current is None:
+        return os.getpid()
+    return 100000 + _process_task(s.current).idx
+
+
+def getppid():
+    s = vsched._CUR
+    if s is None or s.current is None:
+        return os.getppid()
+    p = _process_task(s.current)
+    if len(p.lname) <= 1:
+        return os.getppid()
+    by_name = {x.lname: x for x in s.tasks}
+    return 100000 + _process_task(by_name[p.lname[:-1]]).idx
 
 
 SUB = _mk_modules()
